@@ -342,17 +342,10 @@ Definition wcheckS (c : wcase) : bool :=
             wc_py_ok c && (0 <? wv_ntimes (wc_view c)) && (Z.of_nat k <=? Z.of_nat (length (w_steps (wc_c c))))
             && wview_eqb (wc_view c) (w_view_of (w_truncate_steps k (wc_c c)))
             && list_eqb pair_eqb (wc_tflag c) (firstn k (w_spec_flags c)))).
-(* region 12: whole files on 1x1 grids (U/V records as long as the dummy record); region 19: whole files with so many
-   steps that the reader's step count, which never counts the dummy records, runs ahead (12 * steps >= body + 4: Props/C09.v
-   C09_wind_reader_presents_content has the complementary hypothesis); region 15: a cut on which the
-   layer-counting loop of the reader model never terminates (inside the first step: Model/Wind.v w_hang_cut) *)
+(* region 12: whole files on 1x1 grids (U/V records as long as the dummy record). Region 15 (cuts on which the reader never
+   returned) was retired by db74c5b, region 19 (step count running ahead on long files) by d3c85b3. *)
 Definition wregion (c : wcase) : nat :=
-  if wwhole c then (if w_nx (wc_c c) * w_ny (wc_c c) =? 1 then 12%nat
-                    else if w_body_bytes (wc_c c) + 4 <=? 12 * Z.of_nat (length (w_steps (wc_c c))) then 19%nat else 0%nat)
-  else match w_mm_read (w_ny (wc_c c)) (w_nx (wc_c c)) (firstn (Z.to_nat ((wc_cut c + 3) / 4)) (wc_ref c)) (wc_cut c) with
-       | WHang => 15%nat          (* = w_hang_cut when the U/V records are not 4 bytes long (Props/C14.v) *)
-       | _ => 0%nat
-       end.
+  if wwhole c && (w_nx (wc_c c) * w_ny (wc_c c) =? 1) then 12%nat else 0%nat.
 
 Inductive case_t :=
 | WD (c : wcase)
